@@ -1,5 +1,7 @@
 import PyYetiVerif.Lemmas.Op4Variants
 import PyYetiVerif.Lemmas.Op4Skip
+import PyYetiVerif.Lemmas.Op2ReadFile
+import PyYetiVerif.Lemmas.Op2ReadGen
 /-!
 # C11 — readers decode every OUTPUT4/OUTPUT2 variant; listings match reads
 
@@ -22,8 +24,20 @@ full (32-bit keys, double precision, either byte order, the three layouts): the 
 `_skipop4_binary` leaves the stream exactly where the reader `_loadop4_binary` leaves it, and `dir`
 lists exactly the headers of what `load` returns.
 
-Not proved (checked by exact correspondence only, see PARTIAL in harness/props/c11.py): the same two
-statements for 64-bit keys / single precision / ASCII, `op2_roundtrip`, `cutoff_irrelevant`.
+OUTPUT2 (second half of this file): `Model/Op2Read.lean` is a transcription of pyYeti's op2 readers
+(`_op2open`, `_getkey`, `rdop2header`, `rdop2nt`, `rdop2matrix`, `skipop2matrix`, `rdop2record`,
+`skipop2record`, `rdop2tabheaders`, `directory`, `rdop2mats`) as total functions on the bytes still ahead
+of the file position; the `op2_*` theorems say that these readers invert the independent encoder of
+`Model/Op2.lean` for both key widths, both byte orders, single/double, real/complex, every partition of the
+columns into strings and every split of table records into pieces; that the skippers stop where the
+readers stop; that `directory` lists the byte ranges `positions`; that reading from a listed start
+returns the block; that `rdop2mats` keeps the last block of a repeated name.  The reader model is tied to
+op2.py by exact correspondence on generated files, on the sample files shipped in pyyeti/tests (written
+by Nastran) and on truncated / mis-announced files (harness/props/c11.py, driver command `rd2`).
+
+Not proved (checked by exact correspondence only, see PARTIAL in harness/props/c11.py): `skip_positions` /
+`dir_matches_load` of OUTPUT4 for 64-bit keys / single precision / ASCII, `named_subset = filter`, the
+OUTPUT4 `cutoff_irrelevant`.
 -/
 namespace PyYetiVerif.C11
 open PyYetiVerif.Op4 PyYetiVerif.Op4V
@@ -145,5 +159,220 @@ example :
     · exact ⟨(2, [6, 0, 7]), by simp, by decide, by decide⟩
     · exact ⟨(2, [6, 0, 7]), by simp, by decide, by decide⟩
     · exact ⟨(2, [6, 0, 7]), by simp, by decide, by decide⟩
+
+end PyYetiVerif.C11
+
+
+/-! ## OUTPUT2: the reader model of `Model/Op2Read.lean` inverts the encoder of `Model/Op2.lean` -/
+
+namespace PyYetiVerif.C11
+open PyYetiVerif.Op4 (Endian)
+open PyYetiVerif.Op4V (natBytes intBytes IsPartition)
+open PyYetiVerif.Op2 PyYetiVerif.Op2R
+
+/-- two's complement integers of 4 and 8 bytes are decoded to what was encoded, in both byte orders -/
+theorem op2_int_roundtrip (e : Endian) (x : Int) :
+    (-2147483648 ≤ x → x < 2147483648 → intOfBytes e (intBytes e 4 x) = x) ∧
+      (-9223372036854775808 ≤ x → x < 9223372036854775808 → intOfBytes e (intBytes e 8 x) = x) :=
+  ⟨intOfBytes_intBytes4 e x, intOfBytes_intBytes8 e x⟩
+
+/-- `_getkey` returns the key of a key record and stops behind it; a data record gives its length, its
+payload and is left by skipping the closing marker -/
+theorem op2_key_roundtrip (v : V2) (x : Int) (b rest : List Nat) (hx : InKey v x) (hb : b.length < 2147483648) :
+    getKey v (K v x ++ rest) = .ok (x, rest) ∧ rdEot v (K v x ++ rest) = .ok (x, rest) ∧
+      rdI4 v (R v b ++ rest) = .ok ((b.length : Int), b ++ (mark v b.length ++ rest)) ∧
+      pyRead (b.length : Int) (b ++ (mark v b.length ++ rest)) = .ok (b, mark v b.length ++ rest) ∧
+      (mark v b.length ++ rest).drop 4 = rest :=
+  ⟨getKey_K v x rest hx, rdEot_K v x rest hx, rdI4_R v b rest hb, pyRead_len b _ hb, drop4_mark v _ rest⟩
+
+/-- `rdop2header` on an encoded file header: the date, the label (after `.strip().replace(" ", "")`), and
+the reader is left exactly behind the header -/
+theorem op2_header_roundtrip (v : V2) (date : List Int) (label rest : List Nat) (h : HeadOk v date label) :
+    rdHeader v (header v date label ++ rest) = .ok (some ⟨date, List.replicate (7 * kb v) 78, label⟩, rest) :=
+  rdHeader_header v date label rest h.date_len h.date_keys h.label_chars h.label_len
+
+/-- `rdop2nt` on an encoded data-block header: the name through `_validname`, the trailer, the type -/
+theorem op2_nt_roundtrip (v : V2) (name : List Nat) (trailer : List Int) (type : Int) (rest : List Nat)
+    (ht : trailer.length = 7) (htk : ∀ x ∈ trailer, InKey v x) (hty : InKey v type) (hn : name.length < 2147483000) :
+    rdNT v (blockHead v name trailer type ++ rest) = .ok (some ⟨validname name, trailer, type⟩, rest) :=
+  rdNT_blockHead v name trailer type rest ht htk hty hn
+
+/-- `rdop2matrix` on an encoded matrix body returns the matrix obtained by putting every string at its row
+(`putCol`), for both key widths, both byte orders, single/double (`single ↔ trailer[4]` odd, stored width
+`realBytes`), real/complex (`cplx ↔ trailer[4] > 2`, two stored reals per row), strings on either side of the
+3000-value cut-over, and stops exactly behind the body.  Hypotheses: `trailer[1]` = number of columns ≥ 1,
+`trailer[2]` = rows, every string admissible (`StrOk`: row ≥ 1, fits into the column, values of the stored
+width, record length below 2³¹).  For a complex matrix the result is the raw column of `2·rows` stored reals
+that `matrix.T.view(complex).T` reinterprets; a string need not hold an even number of reals for this
+statement. -/
+theorem op2_matrix_roundtrip (v : V2) (single cplx : Bool) (trailer : List Int) (rows ncols : Nat) (mtype : Int)
+    (cols : List (List MStr)) (rest : List Nat)
+    (h2 : trailer[2]? = some (rows : Int)) (h4 : trailer[4]? = some mtype) (h1 : trailer[1]? = some (ncols : Int))
+    (hs : single = decide (mtype % 2 = 1)) (hc : cplx = decide (mtype > 2))
+    (hne : cols ≠ []) (hlen : cols.length = ncols) (hnc : ncols < 2147483000)
+    (hok : ∀ strs ∈ cols, ∀ s ∈ strs, StrOk v single cplx (rowsEff cplx rows) s) :
+    rdMatrix v trailer (encMatCols v single ncols 0 cols ++ (K v 0 ++ rest))
+      = .ok (⟨rowsEff cplx rows, cplx, realBytes v single,
+          cols.map (putCol cplx (List.replicate (rowsEff cplx rows) 0))⟩, rest) :=
+  rdMatrix_enc v single cplx trailer rows ncols mtype cols rest h2 h4 h1 hs hc hne hlen hnc hok
+
+/-- the result is independent of how the columns are cut into strings: whenever the strings of every
+column form a partition (`IsPartition`: every string is a slice of the column, every non-zero entry lies
+in some string; strings may touch, overlap, contain zeros, come in any order) of the corresponding
+column of `target`, the matrix read is `target` — hence two partitions of the same matrix read equally -/
+theorem op2_partition_irrelevant (v : V2) (single cplx : Bool) (trailer : List Int) (rows ncols : Nat) (mtype : Int)
+    (target : List (List Nat)) (cols : List (List MStr)) (rest : List Nat)
+    (h2 : trailer[2]? = some (rows : Int)) (h4 : trailer[4]? = some mtype) (h1 : trailer[1]? = some (ncols : Int))
+    (hs : single = decide (mtype % 2 = 1)) (hc : cplx = decide (mtype > 2))
+    (hne : cols ≠ []) (hlen : cols.length = ncols) (hnc : ncols < 2147483000)
+    (hok : ∀ strs ∈ cols, ∀ s ∈ strs, StrOk v single cplx (rowsEff cplx rows) s)
+    (htl : target.length = cols.length)
+    (hpart : ∀ p ∈ target.zip cols, p.1.length = rowsEff cplx rows ∧ IsPartition p.1 (p.2.map (toVStr cplx))) :
+    rdMatrix v trailer (encMatCols v single ncols 0 cols ++ (K v 0 ++ rest))
+      = .ok (⟨rowsEff cplx rows, cplx, realBytes v single, target⟩, rest) := by
+  rw [op2_matrix_roundtrip v single cplx trailer rows ncols mtype cols rest h2 h4 h1 hs hc hne hlen hnc hok]
+  have : cols.map (putCol cplx (List.replicate (rowsEff cplx rows) 0)) = target := by
+    apply map_eq_of_zip _ target cols htl
+    intro p hp
+    obtain ⟨h1, h2⟩ := hpart p hp
+    rw [← h1]
+    exact putCol_partition cplx _ _ h2
+  rw [this]
+
+/-- the two ways `rdop2matrix` reads the reals of a string (`struct.unpack` below `_rowsCutoff = 3000`
+values, `numpy.fromfile` from there on) are the same function of the encoded bytes -/
+theorem op2_cutoff_irrelevant (e : Endian) (w : Nat) (hw : 0 < w) (xs rest : List Nat) (h : ∀ x ∈ xs, x < 256 ^ w) :
+    rdVals e w (xs.length : Int) (xs.flatMap (natBytes e w) ++ rest) = .ok (xs, rest) :=
+  rdVals_enc e w hw xs rest h
+
+/-- skipping = reading, as far as the file position is concerned: `skipop2matrix` leaves exactly the bytes
+that `rdop2matrix` leaves, on every encoded matrix body; `skipop2record` leaves what `rdop2record` leaves on
+every encoded table record (any split into pieces) -/
+theorem op2_skip_positions (v : V2) (single cplx : Bool) (trailer : List Int) (rows ncols : Nat) (mtype : Int)
+    (cols : List (List MStr)) (rest : List Nat)
+    (h2 : trailer[2]? = some (rows : Int)) (h4 : trailer[4]? = some mtype) (h1 : trailer[1]? = some (ncols : Int))
+    (hs : single = decide (mtype % 2 = 1)) (hc : cplx = decide (mtype > 2))
+    (hne : cols ≠ []) (hlen : cols.length = ncols) (hnc : ncols < 2147483000)
+    (hok : ∀ strs ∈ cols, ∀ s ∈ strs, StrOk v single cplx (rowsEff cplx rows) s) :
+    (∃ m, rdMatrix v trailer (encMatCols v single ncols 0 cols ++ (K v 0 ++ rest)) = .ok (m, rest)) ∧
+      skipMatrix v (encMatCols v single ncols 0 cols ++ (K v 0 ++ rest)) = .ok rest :=
+  ⟨⟨_, rdMatrix_enc v single cplx trailer rows ncols mtype cols rest h2 h4 h1 hs hc hne hlen hnc hok⟩,
+    skipMatrix_enc v single ncols cols rest hne hlen hnc (fun strs h s hs => (hok strs h s hs).len)⟩
+
+theorem op2_skip_record (v : V2) (neg : Int) (hneg : neg < 0) (hnk : InKey v neg) (rest : List Nat)
+    (pieces : List (List Int)) (hok : ∀ p ∈ pieces, PieceOk v p) :
+    rdRecord v (pieces.flatMap (encPiece v) ++ (K v neg ++ (K v 1 ++ (K v 0 ++ rest)))) = .ok (some pieces.flatten, rest) ∧
+      skipRecord v (pieces.flatMap (encPiece v) ++ (K v neg ++ (K v 1 ++ (K v 0 ++ rest)))) = .ok rest :=
+  ⟨rdRecord_enc v neg hneg hnk rest pieces hok, skipRecord_enc v neg hneg hnk rest pieces hok⟩
+
+/-- `rdop2record()` called until it returns None over an encoded table body returns, record by record, the
+concatenation of the pieces (super-records), then None at the end-of-table key, leaving the reader behind
+the table; `rdop2tabheaders` returns the first three keys and the byte length of every piece (every piece
+has at least three keys) and ends at the same place -/
+theorem op2_table_roundtrip (v : V2) (recs : List (List (List Int))) (rest : List Nat) (hok : TabOk v 0 recs) :
+    rdRecords v ((encTabRecs v 0 recs ++ (K v 0 ++ rest)).length + 1) (encTabRecs v 0 recs ++ (K v 0 ++ rest))
+        = .ok (recs.map List.flatten, rest) ∧
+      ((∀ pieces ∈ recs, ∀ p ∈ pieces, 3 ≤ p.length) →
+        rdTabHeaders v (encTabRecs v 0 recs ++ (K v 0 ++ rest)) = .ok (headersOf v recs, rest)) := by
+  refine ⟨rdRecords_enc v rest recs 0 _ hok ?_, rdTabHeaders_enc v rest recs hok⟩
+  have := length_encTabRecs v recs 0
+  rw [List.length_append]; omega
+
+/-- `_op2open` recovers byte order and key width from the first four bytes of any encoded file -/
+theorem op2_open_detects (v : V2) (date : List Int) (label : List Nat) (bs : List Block) :
+    detect (encOp2 v date label bs) = .ok v := by
+  obtain ⟨t, ht⟩ := header_eq v date label
+  simp only [encOp2, ht, List.append_assoc]
+  exact detect_mark v _
+
+/-- listings match reads: opening an encoded file yields the header and a directory that lists, in file
+order, name, start, stop, type, size, trailer and table headers of every block (`entriesFrom`), the byte
+ranges being `positions`; and reading the block found at any listed start (`rdop2nt` + `rdop2matrix` /
+`rdop2record` until None) returns its content and ends exactly at the listed stop -/
+theorem op2_dir_matches_read (v : V2) (date : List Int) (label : List Nat) (bs : List Block) (hh : HeadOk v date label)
+    (hb : ∀ b ∈ bs, BlockOk v b) :
+    openOp2 (encOp2 v date label bs)
+        = .ok ⟨v, some ⟨date, List.replicate (7 * kb v) 78, label⟩, (header v date label).length,
+            entriesFrom v (header v date label).length bs⟩ ∧
+      (entriesFrom v (header v date label).length bs).map (fun e => (e.start, e.stop)) = positions v date label bs ∧
+      ∀ pre b post, bs = pre ++ b :: post → ContentOk v b →
+        (entriesFrom v (header v date label).length bs)[pre.length]?
+            = some (entryOf v b ((header v date label).length + (pre.flatMap (encBlock v)).length)
+                ((header v date label).length + (pre.flatMap (encBlock v)).length + (encBlock v b).length)) ∧
+          rdBlock v ((encOp2 v date label bs).drop ((header v date label).length + (pre.flatMap (encBlock v)).length))
+            = .ok (some (ntOf b, contentOf v b), (encOp2 v date label bs).drop
+                ((header v date label).length + (pre.flatMap (encBlock v)).length + (encBlock v b).length)) := by
+  refine ⟨openOp2_enc v date label bs hh hb, entriesFrom_positions v bs _, ?_⟩
+  intro pre b post hbs hc
+  subst hbs
+  refine ⟨?_, ?_⟩
+  · rw [entriesFrom_append, List.getElem?_append_right (by rw [length_entriesFrom]; exact Nat.le_refl _),
+      length_entriesFrom, Nat.sub_self]
+    rfl
+  · rw [drop_start, drop_stop]
+    exact rdBlock_enc v b _ (hb b (by simp)) hc
+
+/-- `rdop2mats()` on an encoded file returns the distinct matrix names in order of first appearance, each
+with the matrix of the LAST block of that name -/
+theorem op2_roundtrip (v : V2) (date : List Int) (label : List Nat) (bs : List Block) (hh : HeadOk v date label)
+    (hb : ∀ b ∈ bs, BlockOk v b) (hc : ∀ b ∈ bs, ContentOk v b) :
+    ∃ o, openOp2 (encOp2 v date label bs) = .ok o ∧ o.v = v ∧
+      o.header = some ⟨date, List.replicate (7 * kb v) 78, label⟩ ∧
+      rdMats o.v (encOp2 v date label bs) o.dir = .ok (lastMats v bs) ∧
+      (lastMats v bs).map (·.1) = getUnique [] ((matBlocks bs).map vname) := by
+  exact ⟨_, openOp2_enc v date label bs hh hb, rfl, rfl, rdMats_enc v date label bs hb hc, lastMats_names v bs⟩
+
+
+/-- skipping = reading on EVERY byte string (no encoder involved): whenever `rdop2matrix` succeeds on `s` and
+every string record the skipper visits has an aligned length (`alignedMatrix`: `reclen ≥ ibytes` and
+`reclen − ibytes` a multiple of `bytes_per`, which is what makes `(reclen − ibytes) // bytes_per` exact),
+`skipop2matrix` succeeds on `s` and leaves exactly the same bytes -/
+theorem op2_skip_positions_general (v : V2) (trailer : List Int) (mtype : Int) (s : List Nat) (m : Op2R.Mat)
+    (rest : List Nat) (h4 : trailer[4]? = some mtype) (ha : alignedMatrix v (bytesPer v mtype) s = true)
+    (h : rdMatrix v trailer s = .ok (m, rest)) : skipMatrix v s = .ok rest :=
+  skipMatrix_of_rdMatrix v trailer mtype s m rest h4 ha h
+
+/-- the same for records: whenever `rdop2record()` returns a record on `s` and every piece length is a
+non-negative multiple of the key width, `skipop2record()` leaves exactly the same bytes -/
+theorem op2_skip_record_general (v : V2) (s : List Nat) (d : List Int) (rest : List Nat)
+    (ha : ∀ key s1, getKey v s = .ok (key, s1) → alignedPieces v (s1.length + 1) key s1 = true)
+    (h : rdRecord v s = .ok (some d, rest)) : skipRecord v s = .ok rest :=
+  skipRecord_of_rdRecord v s d rest ha h
+
+/-- skipping over a data block leaves the reader at the next one: from the listed start of any block of an
+encoded file, `goto_next` (via `next_db_info`) moves to the listed stop of that block, which is the start of
+the next block -/
+theorem op2_goto_next (v : V2) (date : List Int) (label : List Nat) (pre : List Block) (b : Block) (post : List Block) :
+    gotoNext (entriesFrom v (header v date label).length (pre ++ b :: post))
+        ((header v date label).length + (pre.flatMap (encBlock v)).length)
+      = .ok ((header v date label).length + (pre.flatMap (encBlock v)).length + (encBlock v b).length) :=
+  gotoNext_enc v _ pre b post
+
+/-! ### non-vacuity: a concrete big-endian file with a matrix block (two columns, the first cut into two
+strings, the second empty) and a table block (a record split into two pieces, a one-piece record) satisfies
+every hypothesis of the theorems above -/
+
+def exV : V2 := ⟨.big, false⟩
+def exMat : MatBlock := ⟨[75, 65, 65], [101, 2, 3, 6, 2, 0, 0], false, [[(1, [5, 6]), (3, [7])], []]⟩
+def exTab : TabBlock := ⟨[71, 69, 79, 77, 49], [102, 0, 0, 0, 0, 0, 0], [[[1, 2, 3], [4, -5, 6, 7]], [[8, 9, 10]]]⟩
+
+example : HeadOk exV [9, 28, 26] [78, 88] ∧ (∀ b ∈ [Block.mat exMat, Block.tab exTab], BlockOk exV b) ∧
+    (∀ b ∈ [Block.mat exMat, Block.tab exTab], ContentOk exV b) := by decide
+
+example : TabOk exV 0 exTab.records ∧ (∀ pieces ∈ exTab.records, ∀ p ∈ pieces, 3 ≤ p.length) ∧
+    (∀ strs ∈ exMat.cols, ∀ s ∈ strs, StrOk exV false false (rowsEff false 3) s) ∧
+    exMat.trailer[1]? = some ((exMat.cols.length : Nat) : Int) := by decide
+
+/-- two different partitions (1-based rows as in the file) of the same column -/
+example : [((2 : Nat), [5, 6]), (5, [7])].map (toVStr false) = [(1, [5, 6]), (4, [7])] ∧
+    [((2 : Nat), [5]), (3, [6, 0, 7])].map (toVStr false) = [(1, [5]), (2, [6, 0, 7])] := by decide
+
+/-- the matrix body of the example is aligned in the sense of `op2_skip_positions_general` -/
+example : alignedMatrix exV 8 (encMatCols exV false 2 0 exMat.cols ++ K exV 0) = true := by decide +kernel
+
+/-- the opened example file: byte order, key width and the byte ranges of the two blocks -/
+example : (match openOp2 (encOp2 exV [9, 28, 26] [78, 88] [.mat exMat, .tab exTab]) with
+    | .ok o => some (o.v.bit64, o.dir.map fun (e : Entry) => (e.start, e.stop, e.dbtype))
+    | .error _ => none) = some (false, [(132, 476, 1), (476, 848, 0)]) := by decide +kernel
 
 end PyYetiVerif.C11
